@@ -46,7 +46,7 @@ def main():
     # layout variants of the targets: CRLF line endings, no trailing newline
     for c in (gold if thorough else gold[:12]):
         for fn, data in sorted(c["inputs"].items())[:1]:
-            for vname, vdata in (("crlf", data.replace(b"\n", b"\r\n")), ("nonl", data.rstrip(b"\n"))):
+            for vname, vdata in (("crlf", data.replace(b"\n", b"\r\n")), ("nonl", data.rstrip(b"\n")), ("bom", b"\xef\xbb\xbf" + data)):
                 if b"`" in data:
                     continue
                 for mode in ("write", "print", "diff"):
@@ -215,6 +215,35 @@ def main():
                         ck.violation("a target with a %d-byte line: the diff does not reproduce the bytes written in place" % width, rep)
                 except udiff.DiffError as e:
                     ck.violation("a target with a %d-byte line: the --diff output does not apply: %s" % (width, e), rep)
+        finally:
+            shutil.rmtree(d, ignore_errors=True)
+    # ---------------- (1d) descriptions: only the '#' lines directly above a change's header, only for files that change applies to.
+    # '#' lines inside an earlier change (its metavariable section, its body) are nobody's description
+    DPATCH = (b"# first change\n@@\n# inside the metavariable section\nvar x expression\n@@\n# inside the body of the first change\n-foo(x)\n# between its lines\n+bar(x)\n"
+              b"# trailing the first change\n\n@@\nvar y expression\n@@\n-baz(y)\n+qux(y)\n\n# third change\n# (two lines)\n@@\n@@\n-never()\n+ever()\n")
+    DFILES = {"a.go": b"package p\n\nfunc a() { foo(1) }\n", "b.go": b"package p\n\nfunc b() { baz(2) }\n", "c.go": b"package p\n\nfunc c() { foo(3); baz(4) }\n", "d.go": b"package p\n\nfunc d() {}\n"}
+    for fl in (["-d"], ["--print-only"], ["-d", "--print-only"], []):
+        d = vlib.scratch("c12desc")
+        try:
+            for fn, data in DFILES.items():
+                open(os.path.join(d, fn), "wb").write(data)
+            open(os.path.join(d, "p.patch"), "wb").write(DPATCH)
+            rc, so, se = vlib.run_gopatch(["-p", "p.patch"] + fl + sorted(DFILES), d)
+            ck.count(("descriptions", tuple(fl)), nontrivial=True); ck.tally("kind", "descriptions of a three-change patch")
+            lines = [l for l in se.decode("utf-8", "replace").splitlines() if l.strip()]
+            want = (["a.go:first change", "c.go:first change"] if fl and fl != [] else [])
+            got = sorted(l.split("/")[-1] for l in lines)
+            rep = {"case": "descriptions", "patch": DPATCH.decode(), "files": {k: v.decode() for k, v in DFILES.items()}, "flags": fl, "stderr": se.decode("utf-8", "replace"), "rc": rc}
+            if rc != 0:
+                ck.violation("a three-change patch with '#' lines everywhere fails: %s" % se.decode("utf-8", "replace")[:200], rep)
+            elif any("inside" in l or "between" in l or "trailing" in l or "third" in l or "two lines" in l for l in lines):
+                ck.violation("a '#' line that is not directly above the header of a change that applied is printed as a description: %r" % lines[:4], rep)
+            elif fl and not ("a.go:first change" in got and set(got) <= set(want)):
+                # (c.go: the described change and an undescribed one apply; gopatch prints the description of the last change that
+                # applied, i.e. none - the property asks for no more than "only for files to which a described change applied")
+                ck.violation("descriptions on stderr: expected 'a.go:first change' and at most %r, got %r" % (sorted(want), got), rep)
+            elif not fl and lines:
+                ck.violation("descriptions are printed in the default mode: %r" % lines[:3], rep)
         finally:
             shutil.rmtree(d, ignore_errors=True)
     # mode agreement
